@@ -7,6 +7,8 @@
  *        write  : write, pwrite, pwrite64          read  : read, pread, pread64
  *        trunc  : ftruncate, ftruncate64            open  : open, open64, openat, openat64
  *        lseek  : lseek, lseek64                    fsync : fsync          close : close
+ *        fsop   : chdir, mkdir, mknod, symlink, fstat, fstatat, dup, lsetxattr, utimensat, fchownat, fchmodat,
+ *                 readlinkat, llistxattr, lgetxattr, realpath  (the other file system calls the project makes)
  *      Build modes:
  *        -DVF_WRAP     link-time wrappers (__wrap_X / __real_X) for ASan builds of the tools:
  *                      link with  -Wl,--wrap=X  for every X in VF_WRAP_SYMS (tools/checks/c13.py)
@@ -21,12 +23,25 @@
  *
  * Environment:
  *   VF_REPORT  path of the side file (required for any reporting)
- *   VF_CLASS   write|read|trunc|open|lseek|fsync|close|alloc|malloc|calloc|realloc|strdup   (absent: count only)
+ *   VF_CLASS   write|read|trunc|open|lseek|fsync|close|fsop|alloc|malloc|calloc|realloc|strdup   (absent: count only)
  *   VF_K       1-based index of the failing call among the calls of that class that match VF_SIDE
  *   VF_SIDE    out|in|any      which descriptors/paths count (default any).  A descriptor/path is `out` when
  *              its /proc/self/fd link (or the path being opened) starts with $VF_OUT, or when it is fd 1 and
  *              VF_OUT_FD1=1; everything else that is not fd 2 is `in`.  fd 2 is never touched.
  *   VF_KIND    ENOSPC|EIO|EINTR   (EINTR: the k-th call fails with EINTR, the next call of the class with EIO)
+ *              EOF|SHORT  (class read only) *truncated input*: the k-th read-like call meets the end of the file —
+ *              EOF: it returns 0; SHORT: it delivers only VF_SHORT bytes (default: half of the request, at least 1).
+ *              From then on the descriptor stays at end-of-file (read returns 0; pread delivers nothing at or beyond
+ *              the cut).  The side file gets `cut <fd target> <offset>`: the length the input appears to have.
+ *   VF_SKEL    comma separated hexadecimal addresses of the *skeleton functions* (main, sqfs_writer_init, …; the
+ *              binary is linked -no-pie, the runner takes them from `nm`).  The project is compiled with
+ *              -finstrument-functions; every entry of a function whose *direct caller* is a skeleton function is
+ *              logged in order (main thread only), as are the libc calls chdir / unlink / realpath made by project
+ *              code (pseudo entries).  When the fault fires the side file gets `nsites <entries logged so far>` and
+ *              `stack <addresses of the instrumented functions active, outermost first>`.
+ *   VF_SITES   path of the site log, written at exit: one line `<caller> <callee>` per entry (hex), or
+ *              `<caller> @<name>` for a pseudo entry (@chdir:ok, @chdir:fail, @unlink:hit, @unlink:miss, @realpath:ok …;
+ *              hit = the path resolves, from the current directory, to $VF_OUT)
  *   VF_OUT     path prefix of the output (file for the packers, directory for rdsquashfs)
  *   VF_OUT_FD1 1 when standard output is the tool's output (sqfs2tar, rdsquashfs -c)
  *   VF_TRACE   (counting runs) path of a call-site trace: one line `<class> <side> <k> <site hash>` per call, where k is
@@ -39,6 +54,7 @@
  *   bt <hex addresses, innermost first>          (only when fired; resolve with addr2line -f -i -e <tool>)
  *   post <n>      write/truncate calls on the output side after the fault fired (first-failure-stops statistic)
  *   exit <0|1>    1 when the process reached its atexit handlers
+ *   nsites / stack / cut          see VF_SKEL and VF_KIND above
  */
 #define _GNU_SOURCE
 #include <errno.h>
@@ -49,6 +65,7 @@
 #include <stdlib.h>
 #include <string.h>
 #include <sys/types.h>
+#include <sys/stat.h>
 #include <unistd.h>
 #ifdef VF_PRELOAD
 #include <dlfcn.h>
@@ -61,8 +78,8 @@
 #undef strdup
 #undef strndup
 
-enum { C_WRITE, C_READ, C_TRUNC, C_OPEN, C_LSEEK, C_FSYNC, C_CLOSE, C_MALLOC, C_CALLOC, C_REALLOC, C_STRDUP, C_NCLASS };
-static const char *const cname[C_NCLASS] = { "write", "read", "trunc", "open", "lseek", "fsync", "close",
+enum { C_WRITE, C_READ, C_TRUNC, C_OPEN, C_LSEEK, C_FSYNC, C_CLOSE, C_FSOP, C_MALLOC, C_CALLOC, C_REALLOC, C_STRDUP, C_NCLASS };
+static const char *const cname[C_NCLASS] = { "write", "read", "trunc", "open", "lseek", "fsync", "close", "fsop",
 					     "malloc", "calloc", "realloc", "strdup" };
 enum { S_IN, S_OUT, S_NSIDE };
 
@@ -82,6 +99,35 @@ static const char *report_path, *out_prefix, *trace_path;
 static struct { unsigned char cls, side; unsigned k; unsigned long h; } trace[VF_TRACE_MAX];
 static long trace_n;
 static int out_fd1;
+
+/* ---- truncated input (VF_KIND=EOF|SHORT) */
+static int cfg_cut;                 /* 1 EOF, 2 SHORT */
+static long cfg_short = -1;         /* VF_SHORT: bytes the cut call still delivers (-1: half of the request) */
+static int cut_fd = -1;             /* descriptor that is at end-of-file from now on */
+static long long cut_off = -1;      /* apparent length of that input */
+static char cut_path[1024];
+#define VF_FD_MAX 4096
+static long long rd_pos[VF_FD_MAX]; /* bytes delivered so far by read() per descriptor (sequential inputs) */
+
+/* ---- call-site log (-finstrument-functions + VF_SKEL) */
+#define VF_STK_MAX 256
+static __thread void *stk[VF_STK_MAX];
+static __thread int stk_depth;
+static __thread int thr_kind;       /* 0 unknown, 1 main thread, 2 other */
+static int have_main;
+static void *skel[32];
+static int nskel;
+static const char *sites_path;
+#define VF_SITELOG_MAX 400000
+static struct { void *parent; void *callee; } sitelog[VF_SITELOG_MAX];
+static long sitelog_n;
+static void *fire_stack[VF_STK_MAX];
+static int fire_depth = -1;
+static long fire_nsites = -1;
+static int fire_thread;
+enum { P_CHDIR_OK = 1, P_CHDIR_FAIL, P_UNLINK_HIT, P_UNLINK_MISS, P_UNLINK_FAIL, P_REALPATH_OK, P_REALPATH_FAIL, P_NPSEUDO };
+static const char *const pseudo_name[P_NPSEUDO] = { "?", "chdir:ok", "chdir:fail", "unlink:hit", "unlink:miss", "unlink:fail",
+						     "realpath:ok", "realpath:fail" };
 
 static void vf_report(void)
 {
@@ -103,6 +149,15 @@ static void vf_report(void)
 			n += snprintf(buf + n, sizeof(buf) - n, " %lx", (unsigned long)bt[i]);
 		n += snprintf(buf + n, sizeof(buf) - n, "\n");
 	}
+	if (fire_nsites >= 0) {
+		n += snprintf(buf + n, sizeof(buf) - n, "nsites %ld %d\n", fire_nsites, fire_thread);
+		n += snprintf(buf + n, sizeof(buf) - n, "stack");
+		for (i = 0; i < fire_depth && i < VF_STK_MAX && n < (int)sizeof(buf) - 1200; ++i)
+			n += snprintf(buf + n, sizeof(buf) - n, " %lx", (unsigned long)fire_stack[i]);
+		n += snprintf(buf + n, sizeof(buf) - n, "\n");
+	}
+	if (cut_fd >= 0 || cut_off >= 0)
+		n += snprintf(buf + n, sizeof(buf) - n, "cut %s %lld\n", cut_path[0] ? cut_path : "?", cut_off);
 	n += snprintf(buf + n, sizeof(buf) - n, "post %ld\n", post_out_writes);
 	n += snprintf(buf + n, sizeof(buf) - n, "exit %d\n", reached_exit);
 	/* raw syscalls through libc's un-wrapped entry points: in VF_WRAP mode this file is not compiled with the
@@ -147,11 +202,37 @@ static void vf_write_trace(void)
 	fclose(f);
 }
 
+static void vf_write_sites(void)
+{
+	FILE *f;
+	long i, n = sitelog_n < VF_SITELOG_MAX ? sitelog_n : VF_SITELOG_MAX;
+
+	if (sites_path == NULL)
+		return;
+	armed = 0;
+	f = fopen(sites_path, "w");
+	if (f == NULL)
+		return;
+	for (i = 0; i < n; ++i) {
+		unsigned long c = (unsigned long)sitelog[i].callee;
+
+		if (c < P_NPSEUDO)
+			fprintf(f, "%lx @%s\n", (unsigned long)sitelog[i].parent, pseudo_name[c]);
+		else
+			fprintf(f, "%lx %lx\n", (unsigned long)sitelog[i].parent, c);
+	}
+	if (sitelog_n > VF_SITELOG_MAX)
+		fprintf(f, "overflow %ld\n", sitelog_n);
+	fprintf(f, "end %ld\n", n);
+	fclose(f);
+}
+
 static void vf_atexit(void)
 {
 	reached_exit = 1;
 	vf_report();
 	vf_write_trace();
+	vf_write_sites();
 }
 
 static void vf_init(void)
@@ -164,6 +245,20 @@ static void vf_init(void)
 	cfg_done = 1;
 	report_path = getenv("VF_REPORT");
 	trace_path = getenv("VF_TRACE");
+	sites_path = getenv("VF_SITES");
+	s = getenv("VF_SKEL");
+	while (s != NULL && *s != '\0' && nskel < 32) {
+		char *end;
+		unsigned long a = strtoul(s, &end, 16);
+
+		if (end == s)
+			break;
+		skel[nskel++] = (void *)a;
+		s = (*end == ',') ? end + 1 : end;
+	}
+	s = getenv("VF_SHORT");
+	if (s != NULL)
+		cfg_short = atol(s);
 	out_prefix = getenv("VF_OUT");
 	if (out_prefix != NULL && out_prefix[0] == '\0')
 		out_prefix = NULL;
@@ -193,9 +288,51 @@ static void vf_init(void)
 	else if (s != NULL && strcmp(s, "EINTR") == 0) {
 		cfg_kind = EINTR;
 		cfg_eintr = 1;
+	} else if (s != NULL && strcmp(s, "EOF") == 0) {
+		cfg_kind = EIO;
+		cfg_cut = 1;
+	} else if (s != NULL && strcmp(s, "SHORT") == 0) {
+		cfg_kind = EIO;
+		cfg_cut = 2;
 	} else
 		cfg_kind = EIO;
 	atexit(vf_atexit);
+}
+
+#ifdef VF_WRAP
+extern char *__real_realpath(const char *, char *);
+#define SHIM_REALPATH __real_realpath
+#else
+#define SHIM_REALPATH realpath
+#endif
+
+/* absolute, normalised form of a path whose last component need not exist */
+static const char *norm_path(const char *path, char *buf, size_t bufsz)
+{
+	char dir[4096], res[4096];
+	const char *base = strrchr(path, '/');
+	size_t dl;
+
+	if (path[0] == '/' && strstr(path, "/../") == NULL && strstr(path, "/./") == NULL)
+		return path;
+	if (base == NULL) {
+		dir[0] = '.';
+		dir[1] = '\0';
+		base = path;
+	} else {
+		dl = (size_t)(base - path);
+		if (dl == 0)
+			dl = 1;
+		if (dl >= sizeof(dir))
+			return path;
+		memcpy(dir, path, dl);
+		dir[dl] = '\0';
+		base += 1;
+	}
+	if (SHIM_REALPATH(dir, res) == NULL)
+		return path;
+	snprintf(buf, bufsz, "%s/%s", strcmp(res, "/") == 0 ? "" : res, base);
+	return buf;
 }
 
 static int side_of_path(const char *path)
@@ -204,12 +341,7 @@ static int side_of_path(const char *path)
 
 	if (out_prefix == NULL || path == NULL)
 		return S_IN;
-	if (path[0] != '/') {                    /* rdsquashfs chdir()s into the unpack root and uses relative names */
-		if (getcwd(abs, 4096) == NULL)
-			return S_IN;
-		snprintf(abs + strlen(abs), sizeof(abs) - strlen(abs), "/%s", path);
-		path = abs;
-	}
+	path = norm_path(path, abs, sizeof(abs));    /* relative names are resolved against the *current* directory */
 	if (strncmp(path, out_prefix, strlen(out_prefix)) == 0)
 		return S_OUT;
 	return S_IN;
@@ -290,6 +422,14 @@ static int vf_decide(int cls, int side, const char *fn)
 	if (!is_alloc)
 		cfg_class = cls;
 	bt_n = backtrace(bt, 48);
+	{
+		int d = stk_depth < VF_STK_MAX ? stk_depth : VF_STK_MAX;
+
+		memcpy(fire_stack, stk, d * sizeof(stk[0]));
+		fire_depth = d;
+		fire_nsites = sitelog_n;
+		fire_thread = thr_kind;
+	}
 	if (cfg_eintr && !is_alloc)
 		pending_eio = 1;
 	vf_report();
@@ -306,6 +446,60 @@ void vf_arm(int on)
 {
 	vf_init();
 	armed = on;
+}
+
+/* ------------------------------------------------------------------ call-site log */
+
+static int is_skel(void *fn)
+{
+	int i;
+
+	for (i = 0; i < nskel; ++i)
+		if (skel[i] == fn)
+			return 1;
+	return 0;
+}
+
+static void site_log(void *parent, void *callee)
+{
+	long slot = __atomic_fetch_add(&sitelog_n, 1, __ATOMIC_SEQ_CST);
+
+	if (slot < VF_SITELOG_MAX) {
+		sitelog[slot].parent = parent;
+		sitelog[slot].callee = callee;
+	}
+}
+
+void __cyg_profile_func_enter(void *this_fn, void *call_site)
+{
+	(void)call_site;
+	if (thr_kind == 0) {
+		vf_init();
+		if (__atomic_exchange_n(&have_main, 1, __ATOMIC_SEQ_CST) == 0)
+			thr_kind = 1;
+		else
+			thr_kind = 2;
+	}
+	if (stk_depth < VF_STK_MAX)
+		stk[stk_depth] = this_fn;
+	stk_depth += 1;
+	if (nskel > 0 && thr_kind == 1 && armed && stk_depth >= 2 && stk_depth <= VF_STK_MAX && is_skel(stk[stk_depth - 2]))
+		site_log(stk[stk_depth - 2], this_fn);
+}
+
+void __cyg_profile_func_exit(void *this_fn, void *call_site)
+{
+	(void)this_fn;
+	(void)call_site;
+	if (stk_depth > 0)
+		stk_depth -= 1;
+}
+
+/* a libc call made directly by project code */
+static void site_pseudo(int id)
+{
+	if (thr_kind == 1 && armed && stk_depth >= 1 && stk_depth <= VF_STK_MAX)
+		site_log(stk[stk_depth - 1], (void *)(unsigned long)id);
 }
 
 /* ------------------------------------------------------------------ allocation wrappers */
@@ -400,28 +594,83 @@ ssize_t NAME(pwrite64)(int fd, const void *b, size_t n, off64_t o)
 	return REAL(pwrite64)(fd, b, n, o);
 }
 
+/* truncated input: the call at which the fault fires meets the end of the file (see VF_KIND=EOF|SHORT) */
+static void cut_note(int fd, long long off)
+{
+	char link[64];
+	ssize_t m;
+
+	cut_fd = fd;
+	cut_off = off;
+	snprintf(link, sizeof(link), "/proc/self/fd/%d", fd);
+	m = readlink(link, cut_path, sizeof(cut_path) - 1);
+	cut_path[m > 0 ? m : 0] = '\0';
+	vf_report();
+}
+
+static size_t cut_deliver(size_t n)
+{
+	if (cfg_cut != 2)
+		return 0;
+	if (cfg_short >= 0)
+		return (size_t)cfg_short < n ? (size_t)cfg_short : (n > 0 ? n - 1 : 0);
+	return n > 1 ? n / 2 : 0;
+}
+
+#define SEQ_READ(fn) \
+	int e_; ssize_t r_; \
+	GET_REAL(fn); \
+	if (fd == cut_fd) return 0; \
+	if (fd != 2 && (e_ = vf_decide(C_READ, side_of_fd(fd), #fn)) != 0) { \
+		if (cfg_cut) { \
+			size_t d_ = cut_deliver(n); \
+			r_ = d_ > 0 ? REAL(fn)(fd, b, d_) : 0; \
+			if (r_ < 0) r_ = 0; \
+			cut_note(fd, (fd >= 0 && fd < VF_FD_MAX ? rd_pos[fd] : 0) + r_); \
+			return r_; \
+		} \
+		errno = e_; return -1; \
+	} \
+	r_ = REAL(fn)(fd, b, n); \
+	if (r_ > 0 && fd >= 0 && fd < VF_FD_MAX) rd_pos[fd] += r_; \
+	return r_;
+
+#define POS_READ(fn) \
+	int e_; ssize_t r_; \
+	GET_REAL(fn); \
+	if (fd == cut_fd) { \
+		if ((long long)o >= cut_off) return 0; \
+		if ((long long)(o + n) > cut_off) n = (size_t)(cut_off - o); \
+		return REAL(fn)(fd, b, n, o); \
+	} \
+	if (fd != 2 && (e_ = vf_decide(C_READ, side_of_fd(fd), #fn)) != 0) { \
+		if (cfg_cut) { \
+			size_t d_ = cut_deliver(n); \
+			r_ = d_ > 0 ? REAL(fn)(fd, b, d_, o) : 0; \
+			if (r_ < 0) r_ = 0; \
+			cut_note(fd, (long long)o + r_); \
+			return r_; \
+		} \
+		errno = e_; return -1; \
+	} \
+	return REAL(fn)(fd, b, n, o);
+
 DECL_REAL(ssize_t, read, (int, void *, size_t))
 ssize_t NAME(read)(int fd, void *b, size_t n)
 {
-	GET_REAL(read);
-	FAIL_FD(C_READ, fd, "read");
-	return REAL(read)(fd, b, n);
+	SEQ_READ(read)
 }
 
 DECL_REAL(ssize_t, pread, (int, void *, size_t, off_t))
 ssize_t NAME(pread)(int fd, void *b, size_t n, off_t o)
 {
-	GET_REAL(pread);
-	FAIL_FD(C_READ, fd, "pread");
-	return REAL(pread)(fd, b, n, o);
+	POS_READ(pread)
 }
 
 DECL_REAL(ssize_t, pread64, (int, void *, size_t, off64_t))
 ssize_t NAME(pread64)(int fd, void *b, size_t n, off64_t o)
 {
-	GET_REAL(pread64);
-	FAIL_FD(C_READ, fd, "pread64");
-	return REAL(pread64)(fd, b, n, o);
+	POS_READ(pread64)
 }
 
 DECL_REAL(int, ftruncate, (int, off_t))
@@ -470,6 +719,10 @@ int NAME(close)(int fd)
 	int e;
 
 	GET_REAL(close);
+	if (fd >= 0 && fd < VF_FD_MAX)
+		rd_pos[fd] = 0;
+	if (fd == cut_fd)
+		cut_fd = -2;              /* the report keeps cut_off / cut_path */
 	if (fd != 2 && (e = vf_decide(C_CLOSE, side_of_fd(fd), "close")) != 0) {
 		/* as on Linux: the descriptor is released even though close reports an error */
 		if (e != EINTR)
@@ -512,6 +765,170 @@ int NAME(openat64)(int dfd, const char *path, int flags, ...)
 {
 	GET_REAL(openat64);
 	OPEN_BODY("openat64", REAL(openat64)(dfd, path, flags, mode))
+}
+
+/* ------------------------------------------------------------------ other file system calls (class fsop) */
+#include <sys/xattr.h>
+#include <sys/time.h>
+
+#define FSOP_PATH(path, fn, failret) do { \
+		int e_; \
+		if ((e_ = vf_decide(C_FSOP, side_of_path(path), fn)) != 0) { errno = e_; return failret; } \
+	} while (0)
+#define FSOP_FD(fd, fn, failret) do { \
+		int e_; \
+		if ((e_ = vf_decide(C_FSOP, side_of_fd(fd), fn)) != 0) { errno = e_; return failret; } \
+	} while (0)
+
+DECL_REAL(int, chdir, (const char *))
+int NAME(chdir)(const char *path)
+{
+	int e, r;
+
+	GET_REAL(chdir);
+	if ((e = vf_decide(C_FSOP, side_of_path(path), "chdir")) != 0) {
+		site_pseudo(P_CHDIR_FAIL);
+		errno = e;
+		return -1;
+	}
+	r = REAL(chdir)(path);
+	site_pseudo(r == 0 ? P_CHDIR_OK : P_CHDIR_FAIL);
+	return r;
+}
+
+DECL_REAL(int, unlink, (const char *))
+int NAME(unlink)(const char *path)
+{
+	int hit, r;
+
+	GET_REAL(unlink);
+	vf_init();
+	hit = side_of_path(path) == S_OUT;       /* resolved from the *current* directory */
+	r = REAL(unlink)(path);
+	site_pseudo(r != 0 ? (hit ? P_UNLINK_FAIL : P_UNLINK_MISS) : (hit ? P_UNLINK_HIT : P_UNLINK_MISS));
+	return r;
+}
+
+DECL_REAL(char *, realpath, (const char *, char *))
+char *NAME(realpath)(const char *path, char *resolved)
+{
+	int e;
+	char *r;
+
+	GET_REAL(realpath);
+	if ((e = vf_decide(C_FSOP, side_of_path(path), "realpath")) != 0) {
+		site_pseudo(P_REALPATH_FAIL);
+		errno = e;
+		return NULL;
+	}
+	r = REAL(realpath)(path, resolved);
+	site_pseudo(r != NULL ? P_REALPATH_OK : P_REALPATH_FAIL);
+	return r;
+}
+
+DECL_REAL(int, mkdir, (const char *, mode_t))
+int NAME(mkdir)(const char *path, mode_t m)
+{
+	GET_REAL(mkdir);
+	FSOP_PATH(path, "mkdir", -1);
+	return REAL(mkdir)(path, m);
+}
+
+DECL_REAL(int, mknod, (const char *, mode_t, dev_t))
+int NAME(mknod)(const char *path, mode_t m, dev_t d)
+{
+	GET_REAL(mknod);
+	FSOP_PATH(path, "mknod", -1);
+	return REAL(mknod)(path, m, d);
+}
+
+DECL_REAL(int, symlink, (const char *, const char *))
+int NAME(symlink)(const char *target, const char *path)
+{
+	GET_REAL(symlink);
+	FSOP_PATH(path, "symlink", -1);
+	return REAL(symlink)(target, path);
+}
+
+DECL_REAL(int, fstat, (int, struct stat *))
+int NAME(fstat)(int fd, struct stat *sb)
+{
+	GET_REAL(fstat);
+	FSOP_FD(fd, "fstat", -1);
+	return REAL(fstat)(fd, sb);
+}
+
+DECL_REAL(int, fstatat, (int, const char *, struct stat *, int))
+int NAME(fstatat)(int dfd, const char *path, struct stat *sb, int fl)
+{
+	GET_REAL(fstatat);
+	FSOP_PATH(path, "fstatat", -1);
+	return REAL(fstatat)(dfd, path, sb, fl);
+}
+
+DECL_REAL(int, dup, (int))
+int NAME(dup)(int fd)
+{
+	GET_REAL(dup);
+	if (fd != 2)
+		FSOP_FD(fd, "dup", -1);
+	return REAL(dup)(fd);
+}
+
+DECL_REAL(int, lsetxattr, (const char *, const char *, const void *, size_t, int))
+int NAME(lsetxattr)(const char *path, const char *k, const void *v, size_t n, int fl)
+{
+	GET_REAL(lsetxattr);
+	FSOP_PATH(path, "lsetxattr", -1);
+	return REAL(lsetxattr)(path, k, v, n, fl);
+}
+
+DECL_REAL(int, utimensat, (int, const char *, const struct timespec *, int))
+int NAME(utimensat)(int dfd, const char *path, const struct timespec *ts, int fl)
+{
+	GET_REAL(utimensat);
+	FSOP_PATH(path, "utimensat", -1);
+	return REAL(utimensat)(dfd, path, ts, fl);
+}
+
+DECL_REAL(int, fchownat, (int, const char *, uid_t, gid_t, int))
+int NAME(fchownat)(int dfd, const char *path, uid_t u, gid_t g, int fl)
+{
+	GET_REAL(fchownat);
+	FSOP_PATH(path, "fchownat", -1);
+	return REAL(fchownat)(dfd, path, u, g, fl);
+}
+
+DECL_REAL(int, fchmodat, (int, const char *, mode_t, int))
+int NAME(fchmodat)(int dfd, const char *path, mode_t m, int fl)
+{
+	GET_REAL(fchmodat);
+	FSOP_PATH(path, "fchmodat", -1);
+	return REAL(fchmodat)(dfd, path, m, fl);
+}
+
+DECL_REAL(ssize_t, readlinkat, (int, const char *, char *, size_t))
+ssize_t NAME(readlinkat)(int dfd, const char *path, char *b, size_t n)
+{
+	GET_REAL(readlinkat);
+	FSOP_PATH(path, "readlinkat", -1);
+	return REAL(readlinkat)(dfd, path, b, n);
+}
+
+DECL_REAL(ssize_t, llistxattr, (const char *, char *, size_t))
+ssize_t NAME(llistxattr)(const char *path, char *b, size_t n)
+{
+	GET_REAL(llistxattr);
+	FSOP_PATH(path, "llistxattr", -1);
+	return REAL(llistxattr)(path, b, n);
+}
+
+DECL_REAL(ssize_t, lgetxattr, (const char *, const char *, void *, size_t))
+ssize_t NAME(lgetxattr)(const char *path, const char *k, void *b, size_t n)
+{
+	GET_REAL(lgetxattr);
+	FSOP_PATH(path, "lgetxattr", -1);
+	return REAL(lgetxattr)(path, k, b, n);
 }
 
 #endif /* VF_WRAP || VF_PRELOAD */
